@@ -113,6 +113,8 @@ class Rig:
         self.pubs.append([topic, payload, qos, retain])
         exc = EXN_CHARS.get(self.pub_spec)
         if exc:
+            if len(self.pubs) % 2:         # client libraries raise with and WITHOUT arguments (TimeoutError())
+                raise exc()
             raise exc("publish callback failure injected by the harness")
 
     def _sub(self, topic, callback, qos):
@@ -122,6 +124,8 @@ class Rig:
             self.sub_recv_ok = False
         exc = EXN_CHARS.get(self.sub_spec[k:k + 1])
         if exc:
+            if k % 2:
+                raise exc()
             raise exc("subscribe callback failure injected by the harness")
 
     def pump(self):
@@ -247,6 +251,14 @@ def scratch():
 
 def impl_hist(case):
     """Restored state -> connect -> deliveries. Returns observation dict."""
+    core.debug_logging(core.case_hash(case)[-1] in "0123")     # a quarter of the histories under DEBUG logging
+    try:
+        return _impl_hist(case)
+    finally:
+        core.debug_logging(False)
+
+
+def _impl_hist(case):
     pfx = case["pfx"]
     kw = {"protocol_version": case["ver"]}
     obs = {"steps": [], "escaped": None}
@@ -516,7 +528,8 @@ HEADERS = [("1", "2", "1", "0", "2"), ("0", "0", "0", "0", "0"), ("255", "255", 
            ("12", "0", "2", "1", "47"), ("7", "3", "1", "0", "2"), ("a", "b", "c", "d", "e"), ("", "", "", "", ""),
            ("01", "+2", " 3", "1_0", "x"), ("1", "1", "1", "1", "1"), ("+", "+", "0", "+", "+"), ("-", "a1", "1", "-", "a")]
 RECV_PAYLOADS = ["", "on", "12.5", "a;b", " lead", "trail ", "x/y", "é☃", "0", "a\nb", "#", "1;2;3;4;5;6"]
-ODD_PREFIXES = ["mygateway1-in", "mysensors/in", "1/2/1/0/2", "0/0/0/0/0", "a/1/2/1/0/2", "+", "#", "in/+/x", "é/☃",
+ODD_PREFIXES = ["attic(2)/mys-out", "gw[1]-out", "what?/out", "a.b", "a+b*", "^in$", "c:\\gw", "{x}|y",   # regex metacharacters
+                "mygateway1-in", "mysensors/in", "1/2/1/0/2", "0/0/0/0/0", "a/1/2/1/0/2", "+", "#", "in/+/x", "é/☃",
                 "a b", "/", "//", "a/", "/a", "1", "12/255", ";", "a;b", "sensors-out/1/2/3/4/5/6/7/8"]
 
 
